@@ -21,7 +21,7 @@ def prop(pid, **kw):
 
 
 prop("C02",
-     units=["hist", "queue"],
+     units=["hist", "queue", "arms"],
      scans=["history-writers"],
      level="proof",
      claim="History::{push,undo,redo} implement the cursor-over-a-list semantics of the statement, for all stacks",
@@ -53,7 +53,7 @@ prop("C11",
 
 
 prop("C03",
-     units=["queue"],
+     units=["queue", "arms"],
      scans=["history-writers"],
      level="proof",
      claim="protocol part: the queue holds exactly the (tag, list) pairs in the order the sender applied them; flush returns enc(queue) and empties it; "
@@ -154,6 +154,18 @@ prop("C23",
      assumptions=["R6: write!(fmt, LIT) arms of Display::fmt are read as the literal they write (formatter plumbing dropped)",
                   "vstd's model of str equality and string literals"],
      residual="localized error names and the 495x5 function-name table are run-time decoded data (language.bin), not a code contract; Functions::lookup/to_localized_name macro tables")
+
+
+prop("C01",
+     units=["hist", "queue", "arms"],
+     scans=["history-writers"],
+     level="proof",
+     claim="undo hands back exactly the most recent not-yet-undone list (History), UserModel::undo applies it through apply_undo_diff_list and queues it, and for the "
+           "variants under contract each undo arm performs the inverse engine call of the recorded operation with the recorded OLD value / inverse position "
+           "(setter class, insert<->delete rows/columns, move rows/columns back, defined names)",
+     assumptions=["A-apply / A-clone as in C02", "A-functional: engine state is a function of the sequence of engine calls; A-setget: setting an attribute back to the value read before the operation restores it",
+                  "the order in which apply_undo_diff_list walks the list (.rev()) is not under contract"],
+     residual="diffs whose inverse is a re-execution through text (SetCellValue, paste, autofill, borders, named styles, CF, links, DeleteRows/Columns/Sheet data restore); the recording side of most operations")
 
 
 def evidence(pid, tier, seed, results, scan_results, kani_results, violations, known_hits, undecided, wall):
